@@ -1,8 +1,22 @@
 """C06: a group restored from storage is the same group, at every crash point."""
+import os, json
+import vlib
 from corecheck import run_core
 def run(ctx):
-    return run_core(ctx, "C06", sim_cfg="SIM_storage", mc_quick="MC_storage", mc_thorough="MC_storage_deep",
+    res = run_core(ctx, "C06", sim_cfg="SIM_storage", mc_quick="MC_storage", mc_thorough="MC_storage_deep",
                     harness_flags=[["--single-backend"], ["--single-backend", "--sqlite"]],
                     need_stats=("Write:ok", "Load:ok", "load_equals_written_checks"),
-                    invariants_note="ProvidersAgree (in-memory vs SQLite trimming rules), RetentionExact, Load = last written snapshot (MlsGroup.tla Write/Load); concrete: order-insensitive full-state equality (verif_state hook) between the group at write_to_storage and the group returned by load_group, after which the reloaded group continues the behaviour in lockstep with the model; stored epoch ids compared with the model after every step; every behaviour runs on the in-memory and on the SQLite provider",
+                    invariants_note="ProvidersAgree (in-memory vs SQLite trimming rules), RetentionExact, Load = last written snapshot (MlsGroup.tla Write/Load); concrete: order-insensitive full-state equality (verif_state hook) between the group at write_to_storage and the group returned by load_group, after which the reloaded group continues the behaviour in lockstep with the model; stored epoch ids compared with the model after every step; every behaviour runs on the in-memory and on the SQLite provider; Write is one atomic action of the specification: for the SQLite provider that assumption is tested by killing (SIGKILL) a process that writes epoch after epoch at a random moment and checking that what is found in the file is a state a completed write left (loads, stored prior epochs = the last min(retention, epoch) epochs, the loaded group can continue)",
                     extra_rule="Each behaviour is replayed twice: in-memory providers and SQLite (file-backed) providers.")
+    if not ctx.get("replay"):
+        rounds = 24 if ctx["tier"] == "quick" else 300
+        rc, out, err = vlib.harness(["crash", "--rounds", rounds, "--seed", ctx["seed"]], timeout=3000)
+        c = vlib.last_json(out)
+        if c["loaded"] + len(c["violations"]) < rounds or c["distinct_epochs"] < 3:
+            raise vlib.ToolError(f"vacuous crash test: {c}")
+        for v in c["violations"][:5]:
+            rp = vlib.replay_path("C06", f"crash-round{v['round']}")
+            json.dump(v, open(rp, "w"))
+            res["violations"].append({"key": "crash", "what": "SQLite provider, process killed during writes: " + v["what"], "replay": rp})
+        res["coverage"]["crash_test"] = {k: c[k] for k in ("rounds", "loaded", "max_epoch_reached", "distinct_epochs")}
+    return res
